@@ -29,12 +29,16 @@ def parseSc (j : Json) : SubjConf :=
   { method := parseMethod (strD j "method"), data := (obj? j "data").map parseScData }
 
 def parseSubject (j : Json) : Subject :=
-  { nameId := str? j "name_id", confs := (arrD j "confs").map parseSc }
+  -- "enc_id": the identifier travels as <saml:EncryptedID> (the harness then renders no NameID element)
+  match obj? j "enc_id" with
+  | some e => { nameId := str? e "name_id", confs := (arrD j "confs").map parseSc, idSealed := true,
+                idOpens := boolD e "decryptable" true }
+  | none => { nameId := str? j "name_id", confs := (arrD j "confs").map parseSc }
 
 def parseConditions (j : Json) : Conditions :=
   { nb := int? j "nb", nooa := int? j "nooa",
     audiences := (arrD j "audiences").map (fun r => asStrList (asArr r)),
-    extraKnown := (arrD j "extra_known").map (fun b => (fromJson? b : Except String Bool).toOption.getD false) }
+    extra := (arrD j "extra").map (fun t => (fromJson? t : Except String String).toOption) }
 
 def parseAuthn (j : Json) : AuthnStmt :=
   { sessionNooa := int? j "session_nooa", sessionIndex := str? j "session_index" }
@@ -63,7 +67,9 @@ def parseCfg (j defaults : Json) (returnAddrs : List String) (entityId : String)
     wantAssert := o.wantAssert.getD (boolD defaults "want_assertions_signed"),
     wantEither := o.wantEither.getD (boolD defaults "want_assertions_or_response_signed"),
     allowUnsolicited := (bool? j "allow_unsolicited").getD (boolD defaults "allow_unsolicited"),
-    skew := natD j "skew" 0, entityId := entityId, returnAddrs := returnAddrs }
+    skew := natD j "skew" 0, entityId := entityId, returnAddrs := returnAddrs,
+    -- namespaces of the configured `extension_schemas` modules (the harness reads each module's NAMESPACE)
+    extSchemas := strList j "ext_namespaces" }
 
 def parseEnv (j : Json) : Env :=
   let b := strD j "binding" "post"
@@ -88,6 +94,7 @@ def errName : Err → String
   | .bearerUnknownIrt => "bearerUnknownIrt" | .cameFrom => "cameFrom" | .eitherUnsigned => "eitherUnsigned"
   | .unknownBinding => "unknownBinding"
   | .timeForm => "timeForm"
+  | .idUndecryptable => "idUndecryptable"
 
 /-- expected exception class for a second-level status code, from the regenerated table -/
 def statusClass (second : Option String) : String :=
@@ -138,6 +145,9 @@ def handle (line : Json) : Json :=
       -- the factory has no parameter for two of the three options: the specification is evaluated with what it applies
       { wantResp := some false, wantAssert := some (opts0.wantAssert.getD false), wantEither := some false }
     else opts0
+  -- only `response_factory` hands the configured extension schemas to the AuthnResponse it builds (Sp.noExt)
+  let viaRespFactory := strD envJ "kind" == "factory" && strD envJ "via" == "response_factory"
+  let cfg0 := if viaRespFactory then cfg0 else noExt cfg0
   let cfg := if isAttr then attrCfg cfg0 else cfg0
   let env := if isAttr then attrEnv env0 else env0
   let r := if isAttr then attrView r0 else r0
@@ -146,8 +156,15 @@ def handle (line : Json) : Json :=
   -- lexical form the timestamps were rendered in (Model/SpLex.lean); the instants of `r` are the true instants
   let tform : TimeForm := match strD envJ "time_form" with
     | "fraction" => .fraction | "noZone" => .noZone | "offset" => .offset | _ => .utc
-  let m := if isAttr then processAttrLex tform cfg0 env0 r0 else if isFactory then processFactoryLex tform cfg env r
-    else processLex tform cfg env r
+  -- what signature verification sees (schema validation of signed elements, Model/SpLex.lean `schemaView`)
+  let rv := schemaView r
+  let m := if isAttr then processAttrLex tform cfg0 env0 (schemaView r0)
+    else if viaRespFactory then processRespFactoryLex tform cfg env rv
+    else if isFactory then processFactoryLex tform cfg env rv
+    else processLex tform cfg env rv
+  -- "otherwise valid" of the completeness halves is defined by the model on a copy with other signatures / times: a
+  -- message whose signed elements hold extension conditions is outside it (refused by schema validation; unspecified)
+  let plainView := decide (rv = r)
   let io := parseOutcome impl
   -- the configuration the PROPERTY talks about: options resolved with the property's defaults
   let cfgP : Cfg := { cfg with wantResp := opts.wantResp.getD true, wantAssert := opts.wantAssert.getD false,
@@ -189,9 +206,9 @@ def handle (line : Json) : Json :=
     | .rejected (.status _) => if statusOnly then outcomeToJson m else outcomeToJson (.rejected .unknownBinding)
     | _ => outcomeToJson m
   let spec (out : Outcome) (isImpl : Bool) : List (String × Bool) :=
-    [("C01s", specC01Sound opts r out), ("C01c", !tform.read || specC01Complete opts cfgP env r out),
+    [("C01s", specC01Sound opts r out), ("C01c", !tform.read || !plainView || specC01Complete opts cfgP env r out),
      ("C04", specC04 cfgP env r out),
-     ("C05s", specC05Sound cfgP env r out), ("C05c", !tform.read || specC05Complete cfgP env r out),
+     ("C05s", specC05Sound cfgP env r out), ("C05c", !tform.read || !plainView || specC05Complete cfgP env r out),
      ("C06", specC06 cfgP env r out && (!isImpl || statusOk))]
   let sel := strD c "prop" "ALL"
   let pick (l : List (String × Bool)) : List (String × Bool) :=
